@@ -126,10 +126,10 @@ def sweep_ops(g, nodeid, tb, maps):
         g.request(op, nodeid, name=('norm', 3), name2=('norm', 4), ans=a, uid=pick_id(g.rng, maps), gid=pick_id(g.rng, maps),
                   auid=pick_id(g.rng, maps), agid=pick_id(g.rng, maps), size=4096, offset=0, limit=10, **kw)
 
-def sc_sweep(sess, rng, tb):
+def sc_sweep(sess, rng, tb, **over):
     """global / per-mount / no mapping, overlapping and disjoint ranges; every operation on a mount with its own mapping,
     on one without, on the pseudo fs and across mount points"""
-    c = new_case(sess, rng, tb); g = HistoryGen(c, rng, use_maps=True)
+    c = new_case(sess, rng, tb, **over); g = HistoryGen(c, rng, use_maps=True)
     m1 = gen_mapping(rng); g.maps_in_play.append(m1)
     st1, o1 = g.mount(path=mk_path(rng, [('N', 1)]), map=m1, ans=dict(okmount(rng), uid=pick_id(rng, [m1, c.cfg['gmap']]), gid=pick_id(rng, [m1, c.cfg['gmap']])))
     st2, o2 = g.mount(path=mk_path(rng, [('N', 2), ('N', 3)]), map=None, ans=dict(okmount(rng), uid=pick_id(rng, [c.cfg['gmap']]), gid=pick_id(rng, [c.cfg['gmap']])))
@@ -205,7 +205,8 @@ def sc_slot_reuse(sess, rng, tb):
 
 def gen_cases(sess, rng, tb, tier):
     q = tier == 'quick'; cases = []
-    for _ in range(10 if q else 100): cases.append(sc_sweep(sess, rng, tb))
+    cases.append(sc_sweep(sess, rng, tb, gmap=(0, 1000, 65536)))      # the documented example mapping: covers internal id 0
+    for _ in range(9 if q else 100): cases.append(sc_sweep(sess, rng, tb))
     for _ in range(8 if q else 50): cases.append(sc_rootmount(sess, rng, tb))
     for _ in range(1 if q else 6): cases.append(sc_overmount_reuse(sess, rng, tb))
     for _ in range(1 if q else 4): cases.append(sc_failed_mount_reuse(sess, rng, tb))
